@@ -89,13 +89,15 @@ def run_tlc_config(name, *, emit, workers=None, invariants=None, constraints=(),
     r.from_cache = False
     if cacheable and not r.errors:
         os.makedirs(CACHE, exist_ok=True)
-        with gzip.open(key + ".jsonl.gz.tmp", "wt") as fh:
+        tmp = "%s.%d.tmp" % (key, os.getpid())      # several checks may fill the cache at the same time
+        with gzip.open(tmp, "wt") as fh:
             for rec in r.records:
                 fh.write(json.dumps(rec, separators=(",", ":")) + "\n")
-        os.replace(key + ".jsonl.gz.tmp", key + ".jsonl.gz")
-        with open(key + ".meta.json", "w") as fh:
+        os.replace(tmp, key + ".jsonl.gz")
+        with open(tmp, "w") as fh:
             json.dump({"returncode": r.returncode, "generated": r.generated, "distinct": r.distinct,
                        "depth": r.depth, "violation": r.violation, "wall_s": r.wall_s}, fh)
+        os.replace(tmp, key + ".meta.json")
     return r
 
 
@@ -170,7 +172,15 @@ def finish(ctx, level="model_checking", rule=None):
 
 def main_wrapper(fn):
     try:
-        sys.exit(fn())
+        rc = fn()
     except MachineryFailure as e:
         print("MACHINERY-FAILURE %s" % e)
-        sys.exit(2)
+        rc = 2
+    except SystemExit:
+        raise
+    except BaseException as e:   # a crash of the framework is never a verdict about the code
+        import traceback
+        traceback.print_exc()
+        print("MACHINERY-FAILURE unexpected %s: %s" % (type(e).__name__, e))
+        rc = 2
+    sys.exit(rc)
